@@ -11,6 +11,9 @@ mod c07;
 mod langs;
 mod c08;
 mod c09;
+mod c10;
+mod c11;
+mod c12;
 mod hist;
 mod c13;
 mod c14;
@@ -59,6 +62,9 @@ fn main() {
                 "C07" => c07::run(tier),
                 "C08" => c08::run(tier),
                 "C09" => c09::run(tier),
+                "C10" => c10::run(tier),
+                "C11" => c11::run(tier),
+                "C12" => c12::run(tier),
                 "C13" => c13::run(tier),
                 "C14" => c14::run(tier),
                 "C15" => c15::run(tier),
@@ -95,6 +101,9 @@ fn main() {
                 "c04" => c04::replay(case),
                 "c05" => c05::replay(case),
                 "c09" => c09::replay(case),
+                "c10" => c10::replay(case),
+                "c11" => c11::replay(case),
+                "c12" => c12::replay(case),
                 "c18" => c18::replay(case),
                 "val-tree" => c16::replay_tree(case),
                 "val-op" => c16::replay_op(case),
